@@ -240,7 +240,7 @@ def _run_driver(family, cases, tmp, tag, timeout):
     return res
 
 
-def run_shards(family, shards, timeout=1800):
+def run_shards(family, shards, timeout=1800, augment=None):
     """shards: list of lists of case dicts (ids unique across shards). Returns (impl, model) dicts by id."""
     tmp = tempfile.mkdtemp(prefix="cocaverif_")
     try:
@@ -250,6 +250,8 @@ def run_shards(family, shards, timeout=1800):
             # after a process death the real globals were reset: tell the model
             cases = []
             for c in sh_:
+                if augment is not None:
+                    c = augment(c, a.get(c["id"]))
                 cases.append(c)
                 r = a.get(c["id"])
                 if r is not None and r.get("site") == "process":
